@@ -102,6 +102,12 @@ def run(ctx):
         "Go enum fields of the document hold declared constants; slices hold no nil entries",
     ]
     if ctx.tier == "thorough":
+        vm = dbccheck.vm_crosscheck(ctx, cases, want=80)
+        ctx.coverage["vm_compute_crosscheck"] = {k: v for k, v in vm.items() if k != "log_tail"}
+        if vm["mismatches"] or not vm["negative_detected"] or vm["cases"] == 0:
+            ctx.violation("%s-vm-crosscheck" % PID.lower(), "the vm_compute cross-check inside Coq disagrees with the observed Go results "
+                          "(or its negative test was not detected): %s" % (vm["mismatches"][:5] or vm["log_tail"][-300:]),
+                          {"vm": vm}, found_input=False)
         ok, chk = vlib.coqchk(PID)
         ctx.coverage["coqchk"] = "ok" if ok else "FAILED"
         ctx.coverage["coqchk_tail"] = chk[-1500:]
